@@ -65,7 +65,7 @@ REQUIRED_BUCKETS = ["state/PMState", "state/KSState", "state/KSTState", "state/S
                     "hist/pos_edit", "hist/tr/translation", "hist/tr/rotation", "hist/tr/level/goal", "hist/tr/level/pp",
                     "hist/tr/level/pps", "hist/set_goal", "hist/swap/deepcopy", "hist/swap/pickle", "hist/fail/bad_list",
                     "hist/fail/int_time", "hist/fail/bad_angle", "hist/fail/bad_end", "hist/fail-then-query", "hist/ro/hash",
-                    "hist/ro/eq", "hist/ro/str", "hist/query-after-edit", "corr/moved"]
+                    "hist/ro/eq", "hist/ro/str", "hist/query-after-edit", "corr/moved", "file/xml", "file/pb"]
 
 BAND = Fraction(1, 10 ** 9)
 BAND_INEXACT = Fraction(1, 10 ** 8)
@@ -186,6 +186,11 @@ DIMENSIONS = {
         "ctor": {"shapes": V + "0..3 members, nested group member, repeated member"},
         "members": {"shapes": N + "immutable after construction (setter warns); members are edited through their own setters",
                     "contains_point": V + "called by is_reached", "translate_rotate": V + "tr steps"}},
+    "file readers": {
+        "members": {
+            "CommonRoadFileReader(xml).open": V + "file cases: goal region written and read back, lanelet goals rebuilt from the "
+                                                  "lanelet polygons of the network in the file (GoalRegionFactory / StateFactory)",
+            "CommonRoadFileReader(protobuf).open": V + "file cases with fmt=pb"}},
 }
 # members of the shape classes that cannot influence contains_point (export / rendering / comparison: C06, C12)
 SHAPE_OTHER = {"draw", "shapely_object", "rotate_translate_local", "vertices", "center", "__eq__", "__hash__", "__str__"}
@@ -1076,7 +1081,10 @@ class World:
 
     def snapshot(self):
         if self.snap is None:
-            self.snap = wire_goals(self.G)
+            try:
+                self.snap = wire_goals(self.G)
+            except (AttributeError, TypeError):
+                self.snap = False       # the goal region holds something that is no goal state (left behind by a rejected edit)
         return self.snap
 
     def dirty(self):
@@ -1144,6 +1152,8 @@ def do_query(ctx, W, st, via, sub, times=1, sobj=None):
         ctx.tag("corr/position-ambiguous-skipped")     # shapely (floats) vs the exact model within the band of a boundary
     elif "?" in res and _is32(*[st.get(k) for k in ("v", "th", "vy")]):
         ctx.tag("corr/float32-band-skipped")           # numpy subtracts / compares float32 values in single precision
+    elif W.snapshot() is False:
+        ctx.tag("corr/unreadable-goal-skipped")
     elif getattr(ctx, "use_model", True):
         tau, eps = _tau_eps()
         s, hyp, at2 = wire_state(st)
@@ -1292,7 +1302,7 @@ def do_edit(ctx, W, step):
     elif op == "tr":
         t, a = step["t"], step["a"]
         ctx.tag("hist/tr/translation" if a == 0 else "hist/tr/rotation", "hist/tr/level/" + step["level"])
-        pre = W.snapshot() if a == 0 and not W.stale else None
+        pre = (W.snapshot() or None) if a == 0 and not W.stale else None
         target = {"goal": G, "pp": W.PP, "pps": W.PPS}[step["level"]]
         target.translate_rotate(np.array(t, dtype=int if step.get("int_t") else float), a)
         was_stale = W.stale
@@ -1346,6 +1356,101 @@ def do_edit(ctx, W, step):
     return True
 
 
+# ------------------------------------------------------------------------------------------------ goal regions that come out of a file
+# {"kind": "file", "fmt": "xml" | "pb", "lanelets": [[id, x0, y0, length, width], ...], "goals": [...], "pp": {"id"}, "steps": [...]}
+# a goal state with "lanelets": [ids] is written as lanelet references; the reader rebuilds its position from the lanelet
+# polygons of the network it has just read.  The oracle's position is the union of the strips the case itself defines.
+
+def strip_spec(l):
+    _, x0, y0, length, w = l
+    return {"k": "poly", "v": [[x0, y0 - w / 2], [x0 + length, y0 - w / 2], [x0 + length, y0 + w / 2], [x0, y0 + w / 2]]}
+
+
+def file_specs(case):
+    by_id = {l[0]: l for l in case["lanelets"]}
+    out = []
+    for g in case["goals"]:
+        g = dict(g)
+        if "lanelets" in g:
+            g["pos"] = {"k": "group", "s": [strip_spec(by_id[i]) for i in g["lanelets"]]}
+        out.append(g)
+    return out
+
+
+class FileWorld(World):
+    def __init__(self, case, tmpdir):
+        import numpy as np
+        from commonroad.common.file_reader import CommonRoadFileReader
+        from commonroad.common.file_writer import CommonRoadFileWriter, OverwriteExistingFile
+        from commonroad.common.util import FileFormat
+        from commonroad.planning.goal import GoalRegion
+        from commonroad.planning.planning_problem import PlanningProblem, PlanningProblemSet
+        from commonroad.scenario.lanelet import Lanelet, LaneletNetwork
+        from commonroad.scenario.scenario import Scenario, ScenarioID, Tag
+        sc = Scenario(0.1, ScenarioID.from_benchmark_id("ZAM_Goal-1_1_T-1", "2020a"))
+        lanelets = []
+        for (i, x0, y0, length, w) in case["lanelets"]:
+            xs = np.array([x0, x0 + length / 2, x0 + length], dtype=float)
+            lanelets.append(Lanelet(np.stack([xs, np.full(3, y0 + w / 2)], 1), np.stack([xs, np.full(3, float(y0))], 1),
+                                    np.stack([xs, np.full(3, y0 - w / 2)], 1), i))
+        sc.add_objects(LaneletNetwork.create_from_lanelet_list(lanelets))
+        self.lan_mode = "auto"
+        self.specs = file_specs(case)
+        G = GoalRegion([build_goal_state(g) for g in self.specs],
+                       {i: list(g["lanelets"]) for i, g in enumerate(case["goals"]) if "lanelets" in g} or None)
+        self.pid = (case.get("pp") or {}).get("id", 1)
+        pps = PlanningProblemSet([PlanningProblem(self.pid, _initial_state(), G)])
+        fmt = case.get("fmt", "xml")
+        path = os.path.join(tmpdir, "c08_goal." + fmt)
+        ff = FileFormat.PROTOBUF if fmt == "pb" else FileFormat.XML
+        from commonroad.scenario.scenario import Location
+        CommonRoadFileWriter(sc, pps, "a", "b", "c", {Tag.URBAN}, Location(),
+                             file_format=ff).write_to_file(path, OverwriteExistingFile.ALWAYS)
+        try:
+            _, self.PPS = CommonRoadFileReader(path, file_format=ff).open()
+        finally:
+            os.remove(path)             # (a second write to the same path makes the writer print a note)
+        self.PP = self.PPS.find_planning_problem_by_id(self.pid)
+        self.G = self.PP.goal
+        self.snap = self.moved = self.stale = None
+        self.edited = self.failed_op = False
+
+
+def gen_file_case(ctx):
+    r = ctx.rng
+    n = r.randint(1, 4)
+    ids = r.sample(range(1, 60), n)
+    lanelets, x, y = [], r.randint(-10, 10) * 1.0, r.randint(-10, 10) * 1.0
+    for i in ids:
+        length, w = r.randint(8, 160) / 16.0 * 2, r.randint(8, 64) / 16.0 * 2
+        lanelets.append([i, x, y, length, w])
+        if r.random() < 0.5:
+            x += length                      # successor: shares the end edge
+        else:
+            y += r.choice([w, w + 1.0, -w])  # neighbour (touching or with a gap)
+    goals = []
+    for _ in range(r.choice([1, 1, 2])):
+        a, b = sorted([r.randint(0, 12), r.randint(0, 12)])
+        g = {"time": [a, b]}
+        roll = r.random()
+        if roll < 0.7:
+            g["lanelets"] = r.sample(ids, r.randint(1, n))
+        elif roll < 0.9:
+            g["pos"] = geom.gen_shape(r, kinds=("rect", "circ", "poly"), exact=True)
+        if r.random() < 0.5:
+            g["ori"] = r.choice([[-0.1, 3.0415], [3.0, 3.3], [-3.1416, 0.8584], [1.5, 5.5], [0.0, 0.0]])
+        if r.random() < 0.5:
+            g["vel"] = sorted([r.randint(0, 400) / 16.0, r.randint(0, 400) / 16.0])
+        goals.append(g)
+    case = {"kind": "file", "fmt": r.choice(["xml", "xml", "pb"]), "lanelets": lanelets, "goals": goals,
+            "pp": {"id": r.choice([1, 7, 300])}}
+    specs = file_specs(case)
+    case["steps"] = [gen_query(r, specs, via=r.choice(["goal", "pps"])) for _ in range(r.randint(1, 3))]
+    if r.random() < 0.3:
+        case["steps"].append(gen_traj(r, specs))
+    return case
+
+
 def upgrade(case):
     """old format {"kind", "goals", "states"} -> history"""
     if "steps" in case:
@@ -1362,12 +1467,13 @@ def run_case(ctx, case):
     ctx.case(case)
     case = upgrade(case)
     try:
-        W = World(case)
-    except Exception as e:  # noqa  constructing an admissible goal must not fail
-        ctx.fail(f"C08/GoalRegion.__init__/raises-{type(e).__name__}", f"{e}", dict(case, steps=[]))
+        W = FileWorld(case, ctx.tmpdir()) if case.get("kind") == "file" else World(case)
+    except Exception as e:  # noqa  constructing (writing, reading) an admissible goal must not fail
+        site = "file-round-trip" if case.get("kind") == "file" else "GoalRegion.__init__"
+        ctx.fail(f"C08/{site}/raises-{type(e).__name__}", f"{e}", dict(case, steps=[]))
         return
     goals = case["goals"]
-    ctx.tag("lan/" + case.get("lan_mode", "auto"))
+    ctx.tag("file/" + case["fmt"] if case.get("kind") == "file" else "lan/" + case.get("lan_mode", "auto"))
     if len(goals) > 1:
         ctx.tag("goal/multi")
     if not goals:
@@ -1577,8 +1683,8 @@ def run(ctx):
     ctx.tag("dimensions/%d" % dimension_count())
     for p in sorted(glob.glob(os.path.join(CORPUS_DIR, "C08", "*.json"))):
         run_case(ctx, json.load(open(p)))
-    for _ in range(ctx.n(2500)):
-        run_case(ctx, gen_case(ctx))
+    for k in range(ctx.n(2500)):
+        run_case(ctx, gen_file_case(ctx) if k % 25 == 7 else gen_case(ctx))
 
 
 search = run
@@ -1600,6 +1706,12 @@ class _Probe:
 
     def tag(self, *a):
         pass
+
+    def tmpdir(self):
+        import tempfile
+        if not hasattr(self, "_tmp"):
+            self._tmp = tempfile.mkdtemp(prefix="crverif_C08_shrink_")
+        return self._tmp
 
     def compare(self, *a, **k):
         return True
